@@ -350,9 +350,23 @@ def run_random(ctx, spec):
                     rng.shuffle(dst)
                     op = ('rename_blocks', sorted(zip(src, dst)))
                     ctx.see('rename_cycle_types', GM.cycle_type(op[1]))
-                    if rng.random() < 0.3:
+                    rr = rng.random()
+                    if rr < 0.25:
                         ctx.count('renames_without_name_fixing')
                         g.rename_blocks(dict(op[1]), fix_blocknames=False)      # (the names are well-formed: nothing to fix)
+                    elif rr < 0.55:
+                        # the model-level call (the grid inside a t2data object), with the map as given or with its
+                        # inverse and invert=True: the same renaming
+                        dat = R.t2data.t2data()
+                        dat.grid = g
+                        if rng.random() < 0.6:
+                            given = dict((b_, a_) for a_, b_ in op[1])
+                            dat.rename_blocks(given, invert=True)
+                            ctx.count('renames_through_model_inverted_map')
+                        else:
+                            given = dict(op[1])
+                            dat.rename_blocks(given)
+                            ctx.count('renames_through_model')
                     else:
                         g.rename_blocks(dict(op[1]))
                 elif r < 0.2:
